@@ -18,7 +18,7 @@ func init() {
 		ID:  "C18",
 		Run: runC18,
 		Explanation: "Blocked-services pause schedule. Decided: (D1) validation precedes storage: both unmarshalers store a day range only after validate returned nil for that same range, validate delegates to the range checks and the whole-minute test, and the schedule's fields have no writers other than the unmarshalers, the constructors and Clone; " +
-			"(D2) weekday/field agreement: in the four (un)marshalers the element for weekday X is built from the field named X (start from start, end from end), all seven days are present, and the JSON and YAML key sets agree; (D3) the schedule is consulted for every request: blocked-service rules are added only on the 'not paused now' edge of Schedule.Contains(time.Now()) for the global and the per-client list; " +
+			"(D2) weekday/field agreement: in the four (un)marshalers the element for weekday X is built from the field named X (start from start, end from end), all seven days are present, and the JSON and YAML key sets agree; (D3) [with: the schedule consulted is the Schedule of the same BlockedServices value whose IDs are applied, and a client's own list always replaces the global rules, paused or not — shared with C04-D2/C01-D9] the schedule is consulted for every request: blocked-service rules are added only on the 'not paused now' edge of Schedule.Contains(time.Now()) for the global and the per-client list; " +
 			"(D4) the range test is the half-open conjunction start <= x && x < end, and the range validator lets a range through only if it is the zero range or passed every one of: start < 0, end < 0, start >= end, start >= 24h, end > 24h; (D5) Contains takes weekday, date and offset from the instant converted to the schedule's own time zone. " +
 			"and the offset tested is the wall-clock reading (Clock), not time elapsed since local midnight — the structural cause of the 23/25-hour-day defect that was found and repaired; (D6) a range bound given as a JSON number of milliseconds is scaled to nanoseconds in floating point and truncated once (no flooring before the whole-minute validation, no wrapping integer multiplication). Not decided: the arithmetic equality of Contains with wall-clock containment for every instant and zone (value-level).",
 		// D6 (JSON durations scaled in floating point, truncated once) is described at c18JSONDuration.
@@ -45,46 +45,67 @@ func c18Validation(c *Ctx) {
 			r.Undecided("C18-D1", fk, "-", "anchor not found")
 			continue
 		}
-		// sinks: stores into <alloc Weekly>.days[i]
+		// sinks: stores into <alloc Weekly>.days[i] (or of a whole array into .days), in the unmarshaler or in a
+		// function it calls that the inventory does not list
 		n := 0
-		for _, b := range fn.Blocks {
-			for _, in := range b.Instrs {
-				st, ok := in.(*ssa.Store)
-				if !ok {
-					continue
-				}
-				ia, ok := st.Addr.(*ssa.IndexAddr)
-				if !ok {
-					continue
-				}
-				fr, ok := core.FieldOfAddr(ia.X)
-				if !ok || fr.Type != "schedule.Weekly" || fr.Field != "days" {
-					continue
-				}
-				n++
-				// the stored value is a load of cell R; guard: validate(load of R) == nil
-				var cell ssa.Value
-				if u, ok := st.Val.(*ssa.UnOp); ok {
-					cell = u.X
-				}
-				g, ng := core.CondEdges(fn, func(at core.Atom) (bool, bool) {
-					if (at.Op == token.EQL || at.Op == token.NEQ) && core.IsNilConst(at.Other) {
-						if call, _, ok := core.CallResult(at.Base); ok && core.CalleeKey(call.Common()) == "(*schedule.Weekly).validate" {
-							arg := call.Common().Args[1]
-							if arg == st.Val {
-								return true, at.Op == token.EQL
-							}
-							if u, ok := arg.(*ssa.UnOp); ok && cell != nil && u.X == cell {
-								return true, at.Op == token.EQL
+		root := fn
+		scan := []*ssa.Function{root}
+		for h := range core.StaticReach(root, 3) {
+			if h != root && core.Transparent(h) {
+				scan = append(scan, h)
+			}
+		}
+		sort.Slice(scan, func(i, j int) bool { return core.FuncKey(scan[i]) < core.FuncKey(scan[j]) })
+		for _, fn := range scan {
+			for _, b := range fn.Blocks {
+				for _, in := range b.Instrs {
+					st, ok := in.(*ssa.Store)
+					if !ok {
+						continue
+					}
+					if fr, isF := core.FieldOfAddr(st.Addr); isF && fr.Type == "schedule.Weekly" && fr.Field == "days" {
+						if _, isZero := st.Val.(*ssa.Const); !isZero {
+							n++
+							ok, why := c18AllValidated(fn, st)
+							r.Check(ok, "C18-D1", fmt.Sprintf("validate-before-store:%s#%d", fk, n), p.InstrPos(in),
+								"the day ranges are stored as a whole only after a loop validated every one of them",
+								"day ranges can be stored into the schedule without each having passed validate: "+why)
+						}
+						continue
+					}
+					ia, ok := st.Addr.(*ssa.IndexAddr)
+					if !ok {
+						continue
+					}
+					fr, ok := core.FieldOfAddr(ia.X)
+					if !ok || fr.Type != "schedule.Weekly" || fr.Field != "days" {
+						continue
+					}
+					n++
+					// the stored value is a load of cell R; guard: validate(load of R) == nil
+					var cell ssa.Value
+					if u, ok := st.Val.(*ssa.UnOp); ok {
+						cell = u.X
+					}
+					g, ng := core.CondEdges(fn, func(at core.Atom) (bool, bool) {
+						if (at.Op == token.EQL || at.Op == token.NEQ) && core.IsNilConst(at.Other) {
+							if call, _, ok := core.CallResult(at.Base); ok && core.CalleeKey(call.Common()) == "(*schedule.Weekly).validate" {
+								arg := call.Common().Args[1]
+								if arg == st.Val {
+									return true, at.Op == token.EQL
+								}
+								if u, ok := arg.(*ssa.UnOp); ok && cell != nil && u.X == cell {
+									return true, at.Op == token.EQL
+								}
 							}
 						}
-					}
-					return false, false
-				})
-				off, _ := core.UnguardedSinks(fn, func(x ssa.Instruction) bool { return x == in }, g)
-				r.Check(ng > 0 && len(off) == 0, "C18-D1", fmt.Sprintf("validate-before-store:%s#%d", fk, n), p.InstrPos(in),
-					"a day range is stored only after validate returned nil for that same range",
-					"a day range can be stored into the schedule without having passed validate", traceOf(p, off)...)
+						return false, false
+					})
+					off, _ := core.UnguardedSinks(fn, func(x ssa.Instruction) bool { return x == in }, g)
+					r.Check(ng > 0 && len(off) == 0, "C18-D1", fmt.Sprintf("validate-before-store:%s#%d", fk, n), p.InstrPos(in),
+						"a day range is stored only after validate returned nil for that same range",
+						"a day range can be stored into the schedule without having passed validate", traceOf(p, off)...)
+				}
 			}
 		}
 		r.Floor("C18-D1", "day-stores:"+fk, n, 1)
@@ -159,7 +180,15 @@ func c18Validation(c *Ctx) {
 		for outer.Parent() != nil {
 			outer = outer.Parent()
 		}
-		r.Check(allowed[core.FuncKey(outer)], "C18-D1", "schedule-writer:"+core.FuncKey(fn), p.FnPos(fn),
+		// a function the inventory does not list writes on behalf of the listed functions that call it
+		owners, okOwn := p.Owners(outer)
+		okAll := okOwn
+		for _, o := range owners {
+			if !allowed[core.FuncKey(o)] {
+				okAll = false
+			}
+		}
+		r.Check(okAll, "C18-D1", "schedule-writer:"+core.FuncKey(fn), p.FnPos(fn),
 			"the schedule is written only by its constructors, Clone and the validating unmarshalers",
 			core.FuncKey(fn)+" writes a schedule's fields without going through the validating unmarshalers")
 	}
@@ -360,6 +389,14 @@ func c18Agreement(c *Ctx) {
 }
 
 func c18Consult(c *Ctx) {
+	blockedServicesSchedule(c, "C18-D3")
+	ownBlockedServices(c, "C18-D3")
+}
+
+// blockedServicesSchedule: every application of a list of blocked services is
+// guarded by the pause schedule of that same list, consulted for the current
+// instant (shared by C01 and C18).
+func blockedServicesSchedule(c *Ctx, rule string) {
 	p, r := c.P, c.R
 	n := 0
 	for _, fn := range p.ModFnsIn("filtering") {
@@ -382,11 +419,53 @@ func c18Consult(c *Ctx) {
 			return true, false
 		})
 		off, _ := core.UnguardedSinks(fn, core.IsCallTo(false, "(*filtering.DNSFilter).ApplyBlockedServicesList"), g)
-		r.Check(ng > 0 && len(off) == 0, "C18-D3", "schedule-consulted:"+core.FuncKey(fn), p.FnPos(fn),
+		r.Check(ng > 0 && len(off) == 0, rule, "schedule-consulted:"+core.FuncKey(fn), p.FnPos(fn),
 			"blocked-service rules are applied only when Schedule.Contains(time.Now()) is false",
 			"blocked-service rules can be applied without consulting the pause schedule for the current instant", traceOf(p, off)...)
+		// ... and the schedule consulted is the one of the list being applied: the service IDs and the
+		// schedule are fields of the same BlockedServices value
+		for i, call := range calls {
+			okAll, nLeaves := true, 0
+			var det []string
+			for _, lf := range handlerLeaves(call.Arg(2)) {
+				nLeaves++
+				fr, owner, isF := core.LoadedField(core.ResolveCellLoad(lf.v))
+				if !isF || fr.Field != "IDs" {
+					okAll = false
+					det = append(det, "the list of services is not the IDs field of a BlockedServices value")
+					continue
+				}
+				gs, ngs := core.CondEdges(fn, func(at core.Atom) (bool, bool) {
+					if at.Op != token.ILLEGAL {
+						return false, false
+					}
+					cc, _, ok := core.CallResult(at.Base)
+					if !ok || core.CalleeKey(cc.Common()) != "(*schedule.Weekly).Contains" || !core.IsCallResult(cc.Common().Args[1], -1, "time.Now") {
+						return false, false
+					}
+					fs, sOwner, isS := core.LoadedField(core.ResolveCellLoad(cc.Common().Args[0]))
+					if !isS || fs.Field != "Schedule" || core.AccessPath(sOwner) != core.AccessPath(owner) {
+						return false, false
+					}
+					return true, false
+				})
+				target := ssa.Instruction(call.Instr)
+				if lf.pred != nil {
+					target = lf.pred.Instrs[len(lf.pred.Instrs)-1]
+				}
+				_ = target
+				offS, _ := core.UnguardedSinksLocal(fn, func(x ssa.Instruction) bool { return x == ssa.Instruction(call.Instr) }, gs)
+				if ngs == 0 || len(offS) > 0 {
+					okAll = false
+					det = append(det, "the services of "+fr.String()+" are applied without Contains(time.Now()) on the Schedule of the same value")
+				}
+			}
+			r.Check(okAll && nLeaves > 0, rule, fmt.Sprintf("schedule-of-the-applied-list:%s#%d", core.FuncKey(fn), i+1), p.InstrPos(call.Instr),
+				"the pause schedule consulted is the one that belongs to the list of services being applied",
+				"a list of blocked services is applied under the pause schedule of another list (a client's own pause is ignored, or the global pause silences a client's own list)", det...)
+		}
 	}
-	r.Floor("C18-D3", "blocked-services-application-sites", n, 2)
+	r.Floor(rule, "blocked-services-application-sites", n, 2)
 }
 
 func c18Shapes(c *Ctx) {
@@ -726,4 +805,63 @@ func c18JSONDuration(c *Ctx) {
 	}
 	r.Check(n == 1 && ok, "C18-D6", "json-duration:scaled-before-truncation", p.FnPos(fn),
 		"a JSON duration is scaled to nanoseconds in floating point and truncated once", "JSON durations lose precision or wrap before validation: "+why+" (ranges that are not whole minutes, or far longer than a day, pass the validator)")
+}
+
+// c18AllValidated decides the whole-array form `w.days = A`: the store is
+// reached only through the normal exit of a range loop over all of A's
+// elements, every iteration of which goes on only on the edge where
+// validate(A[i]) returned nil.
+func c18AllValidated(fn *ssa.Function, st *ssa.Store) (bool, string) {
+	arr := st.Val
+	at, ok := arr.Type().Underlying().(*types.Array)
+	if !ok {
+		return false, "the stored value is not an array value"
+	}
+	for _, h := range fn.Blocks {
+		if !strings.HasPrefix(h.Comment, "rangeindex.loop") || len(h.Succs) != 2 {
+			continue
+		}
+		iff, isIf := h.Instrs[len(h.Instrs)-1].(*ssa.If)
+		if !isIf {
+			continue
+		}
+		a := core.Decompose(iff.Cond)
+		if k, isK := core.ConstInt(a.Other); a.Op != token.LSS || a.Neg || !isK || k != at.Len() {
+			continue
+		}
+		idx := a.Base
+		body := loopBody(h)
+		// the store lies behind the loop's normal exit
+		exit := map[core.Edge]bool{{From: h, Succ: 1}: true}
+		if off, _ := core.UnguardedSinksLocal(fn, func(x ssa.Instruction) bool { return x == ssa.Instruction(st) }, exit); len(off) > 0 {
+			continue
+		}
+		// every iteration continues only on validate(A[idx]) == nil
+		nilEdges, n := core.CondEdges(fn, func(at core.Atom) (bool, bool) {
+			if (at.Op == token.EQL || at.Op == token.NEQ) && core.IsNilConst(at.Other) {
+				if call, _, ok := core.CallResult(at.Base); ok && core.CalleeKey(call.Common()) == "(*schedule.Weekly).validate" {
+					if ix, isIx := call.Common().Args[1].(*ssa.Index); isIx && ix.X == arr && ix.Index == idx {
+						return true, at.Op == token.EQL
+					}
+				}
+			}
+			return false, false
+		})
+		if n == 0 {
+			continue
+		}
+		for b := range body {
+			for i, s := range b.Succs {
+				if !body[s] {
+					nilEdges[core.Edge{From: b, Succ: i}] = true // leaving the loop is not continuing it
+				}
+			}
+		}
+		again, _, _ := core.Reach(core.Query{From: []core.Point{{Block: h.Succs[0], Idx: 0}}, Target: func(x ssa.Instruction) bool { return x.Block() == h }, AvoidEdges: nilEdges})
+		if again {
+			return false, "an iteration of the validating loop can go on without validate having returned nil for its element"
+		}
+		return true, ""
+	}
+	return false, "no loop over all elements of the stored array validates them before the store"
 }
